@@ -5,6 +5,7 @@ import (
 	"fmt"
 	"os"
 	"sync"
+	"time"
 )
 
 // Recorder writes the orchestrator's own event stream: one ND-JSON record per
@@ -15,6 +16,7 @@ type Recorder struct {
 	mu  sync.Mutex
 	f   *os.File
 	seq uint64
+	t0  time.Time
 }
 
 func NewRecorder(path string) (*Recorder, error) {
@@ -22,7 +24,7 @@ func NewRecorder(path string) (*Recorder, error) {
 	if err != nil {
 		return nil, err
 	}
-	return &Recorder{f: f}, nil
+	return &Recorder{f: f, t0: time.Now()}, nil
 }
 
 // Log appends one event. kv are alternating keys and values.
@@ -35,6 +37,8 @@ func (r *Recorder) Log(ev string, kv ...interface{}) {
 	defer r.mu.Unlock()
 	r.seq++
 	rec["seq"] = r.seq
+	// for people reading the stream (how long did a step take); the validator never looks at it
+	rec["wallms"] = time.Since(r.t0).Milliseconds()
 	b, err := json.Marshal(rec)
 	if err != nil {
 		b = []byte(fmt.Sprintf(`{"ev":"error","seq":%d,"error":%q}`, r.seq, err.Error()))
